@@ -26,6 +26,17 @@
 (* position that keeps the table sorted: the relative order of entries     *)
 (* whose sort keys compare equal is not documented.                        *)
 (*                                                                         *)
+(* Modelled as coded where the header is silent (the check judges these   *)
+(* points at the property level with Either, see harness/ht.cpp Monitor):  *)
+(*  - Clear() / destructor / operator= hand every registered iterator a    *)
+(*    copy of the entry its cursor is linked to, OVERWRITING a scratch copy*)
+(*    it may already hold (DetachIts);                                      *)
+(*  - MoveToPosition / PutAtPosition to a middle position always unlink    *)
+(*    and relink the entry, even if it already is at that position.        *)
+(* "Reordering operation" (the exemption of NoSkip / NoTwice): a call that *)
+(* unlinked and relinked an entry (mv) or changed the relative order of    *)
+(* the surviving entries.                                                  *)
+(*                                                                         *)
 (* The property is at the bottom.                                          *)
 (***************************************************************************)
 EXTENDS Integers, Sequences, FiniteSets, TLC
